@@ -59,25 +59,21 @@ Qed.
 
 Definition pr_tail : list pstmt := skipn 1 (pf_body k_flow_process_response).
 
-Definition class_checks (auth offs : bool) (hdr : pdu_header) (p : pdu) : res response :=
-  match p with
-  | PBindNak _ => Raise ValueError
-  | PFault _ => Raise ValueError
-  | PResponse r => if k_reject_unsealed auth offs (h_auth_len hdr) then Raise ValueError else Ok r
-  | _ => Raise ValueError
-  end.
+Lemma pdu_type_ptype p : pdu_type p = pdu_ptype p.
+Proof. destruct p; reflexivity. Qed.
 
-Lemma pr_tail_ok fuel c clear hdr offs env :
+Lemma pr_tail_ok fuel c clear hdr k offs env :
   lookup "response" env = Some (VB clear) ->
   lookup "self" env = Some (VO (OSelf c)) ->
   lookup "encrypt_offsets" env = Some (offv offs) ->
   lookup "pdu_header" env = Some (VO (OHdr hdr)) ->
-  lookup "resp_type" env = Some (VI c_PT_RESPONSE) ->
+  lookup "resp_type" env = Some (VI k) ->
   lookup "BindNak" env = None -> lookup "Fault" env = None ->
   (let* o := exec_block W fuel pr_tail env in match o with Ret v => Ok v | _ => Ok VN end) =
-  (let* r := (let* (p, _) := pdu_unpack (S (List.length clear)) clear in
-              class_checks (is_some (cl_auth c)) (is_some offs) hdr p) in
-   Ok (VO (OPdu (PResponse r)))).
+  (let* q := (let* (p, _) := pdu_unpack (S (List.length clear)) clear in
+              let* q := class_check k p in
+              if k_reject_unsealed (is_some (cl_auth c)) (is_some offs) (h_auth_len hdr) then Raise ValueError else Ok q) in
+   Ok (VO (OPdu q))).
 Proof.
   intros Hr Hs Ho Hh Ht Hn Hf.
   assert (L2 : forall (a0 a1 : pv obj), (len [a0; a1] =? 0) = false) by reflexivity.
@@ -88,14 +84,64 @@ Proof.
   rewrite Hf. cbn. rewrite truthy_vb.
   destruct (pdu_type p =? c_PT_FAULT) eqn:E2; cbn; [destruct p; try discriminate; reflexivity|].
   rewrite Ht. cbn. rewrite truthy_vb.
-  destruct (pdu_type p =? c_PT_RESPONSE) eqn:E3; cbn; [|destruct p; try discriminate; reflexivity].
-  destruct p; try discriminate. cbn [class_checks].
+  assert (Hc : class_check k p = if negb (pdu_type p =? k) then Raise ValueError else Ok p)
+    by (destruct p; try discriminate; reflexivity).
+  rewrite Hc.
+  destruct (pdu_type p =? k) eqn:E3; cbn; [|reflexivity].
   rewrite Hs. cbn. unfold k_reject_unsealed.
   destruct (cl_auth c) as [pv|]; cbn.
   - rewrite Ho. destruct offs as [[o0 o1]|]; cbn; rewrite ?L2; cbn.
-    + rewrite Hh. cbn. rewrite truthy_vb. destruct (h_auth_len hdr =? 0); cbn; rewrite ?Hr; reflexivity.
+    + rewrite Hh. cbn. rewrite truthy_vb. destruct (h_auth_len hdr =? 0); cbn; reflexivity.
     + reflexivity.
   - reflexivity.
+Qed.
+
+(* _process_response(self, response, pdu_header, resp_type, encrypt_offsets) IS Seal.process_pdu_as, for every resp_type (a PDU class
+   := its packet type): the bind stage (BindAck, AlterContextResponse) as well as requests (Response) *)
+Lemma flow_process_response_as fuel c resp hdr k offs :
+  run W fuel k_flow_process_response [VO (OSelf c); VB resp; VO (OHdr hdr); VI k; offv offs]
+  = (let* q := process_pdu_as k unwrap (is_some (cl_auth c)) offs (cl_sign c) hdr resp in Ok (VO (OPdu q))).
+Proof.
+  assert (I0 : forall (a0 a1 : pv obj), PySlice.index [a0; a1] 0 = Ok a0) by reflexivity.
+  assert (L2 : forall (a0 a1 : pv obj), (len [a0; a1] =? 0) = false) by reflexivity.
+  assert (Tl : forall clear env,
+    lookup "response" env = Some (VB clear) -> lookup "self" env = Some (VO (OSelf c)) ->
+    lookup "encrypt_offsets" env = Some (offv offs) -> lookup "pdu_header" env = Some (VO (OHdr hdr)) ->
+    lookup "resp_type" env = Some (VI k) -> lookup "BindNak" env = None -> lookup "Fault" env = None ->
+    (let* o := exec_block W fuel pr_tail env in match o with Ret v => Ok v | _ => Ok VN end)
+    = (let* q := (let* (p, _ticks) := pdu_unpack (S (List.length clear)) clear in
+                  let* q := class_check k p in
+                  if k_reject_unsealed (is_some (cl_auth c)) (match offs with Some _ => true | None => false end) (h_auth_len hdr)
+                  then Raise ValueError else Ok q) in Ok (VO (OPdu q)))).
+  { intros. rewrite (pr_tail_ok fuel c clear hdr k offs env) by assumption. destruct offs; reflexivity. }
+  unfold process_pdu_as, unseal, unwrap_slices, k_unwrap_guard, k_sec_trailer_offset, k_unwrap_trailer_len.
+  unfold run. cbn [bind_params pf_params pf_body k_flow_process_response].
+  match goal with |- context [exec_block W fuel ?body ?env] => change body with (firstn 1 body ++ pr_tail) end.
+  rewrite exec_block_app. cbn [firstn]. remember pr_tail as tl eqn:Etl.
+  rewrite exec_block_cons, exec_if. unfold test.
+  destruct (cl_auth c) as [pv|] eqn:Ea; destruct offs as [[o0 o1]|]; cbn; rewrite ?Ea; cbn; rewrite ?L2; cbn.
+  - destruct (h_auth_len hdr =? 0) eqn:El; cbn.
+    + subst tl. rewrite (Tl resp) by reflexivity. rewrite ?Ea. reflexivity.
+    + repeat (first [rewrite I0 | rewrite Ea | rewrite truthy_vb]; cbn).
+      destruct (unwrap _ _ _ _ _) as [dec|e]; cbn; [|reflexivity].
+      repeat (first [rewrite I0 | rewrite Ea | rewrite truthy_vb]; cbn). rewrite setslice_assign.
+      subst tl. rewrite (Tl (assign_slice resp o0 (h_frag_len hdr - (h_auth_len hdr + 8)) dec)) by reflexivity.
+      rewrite ?Ea. reflexivity.
+  - subst tl. rewrite (Tl resp) by reflexivity. rewrite ?Ea. reflexivity.
+  - subst tl. rewrite (Tl resp) by reflexivity. rewrite ?Ea. reflexivity.
+  - subst tl. rewrite (Tl resp) by reflexivity. rewrite ?Ea. reflexivity.
+Qed.
+
+(* Seal.process_response (the function of C16_sealed_only) is the resp_type = Response instance *)
+Lemma process_response_is_as auth offs sign hdr resp :
+  process_response unwrap auth offs sign hdr resp
+  = (let* q := process_pdu_as c_PT_RESPONSE unwrap auth offs sign hdr resp in
+     match q with PResponse r => Ok r | _ => Raise ValueError end).
+Proof.
+  unfold process_response, process_pdu_as.
+  destruct (unseal unwrap auth offs sign hdr resp) as [clear|e]; cbn [bind]; [|reflexivity].
+  destruct (pdu_unpack _ clear) as [[p t]|e]; cbn [bind]; [|reflexivity].
+  destruct p; cbn; try reflexivity; destruct (k_reject_unsealed _ _ _); reflexivity.
 Qed.
 
 (* _process_response(self, response, pdu_header, Response, encrypt_offsets) IS Seal.process_response *)
@@ -103,44 +149,11 @@ Lemma flow_process_response fuel c resp hdr offs :
   run W fuel k_flow_process_response [VO (OSelf c); VB resp; VO (OHdr hdr); VI c_PT_RESPONSE; offv offs]
   = (let* r := process_response unwrap (is_some (cl_auth c)) offs (cl_sign c) hdr resp in Ok (VO (OPdu (PResponse r)))).
 Proof.
-  assert (I0 : forall (a0 a1 : pv obj), PySlice.index [a0; a1] 0 = Ok a0) by reflexivity.
-  assert (L2 : forall (a0 a1 : pv obj), (len [a0; a1] =? 0) = false) by reflexivity.
-  assert (Tl : forall clear env,
-    lookup "response" env = Some (VB clear) -> lookup "self" env = Some (VO (OSelf c)) ->
-    lookup "encrypt_offsets" env = Some (offv offs) -> lookup "pdu_header" env = Some (VO (OHdr hdr)) ->
-    lookup "resp_type" env = Some (VI c_PT_RESPONSE) -> lookup "BindNak" env = None -> lookup "Fault" env = None ->
-    (let* o := exec_block W fuel pr_tail env in match o with Ret v => Ok v | _ => Ok VN end)
-    = (let* r := (let* (p, _) := pdu_unpack (S (List.length clear)) clear in
-                  class_checks (is_some (cl_auth c)) (is_some offs) hdr p) in Ok (VO (OPdu (PResponse r))))).
-  { intros. apply pr_tail_ok; assumption. }
-  assert (Pm : forall clear, (let* (p, _) := pdu_unpack (S (List.length clear)) clear in
-                  class_checks (is_some (cl_auth c)) (is_some offs) hdr p)
-      = (let* (p, _ticks) := pdu_unpack (S (List.length clear)) clear in
-         match p with
-         | PBindNak _ => Raise ValueError
-         | PFault _ => Raise ValueError
-         | PResponse r =>
-           if k_reject_unsealed (is_some (cl_auth c)) (match offs with Some _ => true | None => false end) (h_auth_len hdr) then Raise ValueError
-           else Ok r
-         | _ => Raise ValueError
-         end)).
-  { intro clear. destruct (pdu_unpack _ clear) as [[p t]|e]; [|reflexivity]. destruct offs; destruct p; reflexivity. }
-  unfold process_response, unseal, unwrap_slices, k_unwrap_guard, k_sec_trailer_offset, k_unwrap_trailer_len.
-  unfold run. cbn [bind_params pf_params pf_body k_flow_process_response].
-  match goal with |- context [exec_block W fuel ?body ?env] => change body with (firstn 1 body ++ pr_tail) end.
-  rewrite exec_block_app. cbn [firstn]. remember pr_tail as tl eqn:Etl.
-  rewrite exec_block_cons, exec_if. unfold test.
-  destruct (cl_auth c) as [pv|] eqn:Ea; destruct offs as [[o0 o1]|]; cbn; rewrite ?Ea; cbn; rewrite ?L2; cbn.
-  - destruct (h_auth_len hdr =? 0) eqn:El; cbn.
-    + subst tl. rewrite (Tl resp) by reflexivity. rewrite Pm, ?Ea. reflexivity.
-    + repeat (first [rewrite I0 | rewrite Ea | rewrite truthy_vb]; cbn).
-      destruct (unwrap _ _ _ _ _) as [dec|e]; cbn; [|reflexivity].
-      repeat (first [rewrite I0 | rewrite Ea | rewrite truthy_vb]; cbn). rewrite setslice_assign.
-      subst tl. rewrite (Tl (assign_slice resp o0 (h_frag_len hdr - (h_auth_len hdr + 8)) dec)) by reflexivity.
-      rewrite Pm, ?Ea. reflexivity.
-  - subst tl. rewrite (Tl resp) by reflexivity. rewrite Pm, ?Ea. reflexivity.
-  - subst tl. rewrite (Tl resp) by reflexivity. rewrite Pm, ?Ea. reflexivity.
-  - subst tl. rewrite (Tl resp) by reflexivity. rewrite Pm, ?Ea. reflexivity.
+  rewrite flow_process_response_as, process_response_is_as.
+  unfold process_pdu_as.
+  destruct (unseal unwrap _ offs _ hdr resp) as [clear|e]; cbn [bind]; [|reflexivity].
+  destruct (pdu_unpack _ clear) as [[p t]|e]; cbn [bind]; [|reflexivity].
+  destruct p; cbn; try reflexivity; destruct (k_reject_unsealed _ _ _); reflexivity.
 Qed.
 
 End Seal.
